@@ -121,7 +121,11 @@ func c02(r *report.Run) {
 	slices := []*slice{sliceOptim(), sliceConstExpr(), func() *slice {
 		s := sliceKinds()
 		s.modes = []lib.Mode{{Env: "struct"}, {Env: "noenv"}}
-		s.maxN = map[string]int{"quick": 5, "thorough": 6}
+		s.maxN = map[string]int{"quick": 6, "thorough": 7}
+		return s
+	}(), func() *slice {
+		s := sliceMembership()
+		s.modes = []lib.Mode{{Env: "struct"}, {Env: "noenv"}, {Env: "map"}}
 		return s
 	}()}
 	runSlices(r, slices, func(sl *slice, e *gen.Expr, order int64) (int64, []string) {
